@@ -147,6 +147,64 @@ func cmdBitRanges(repo, dir, name string) {
 	os.Exit(1)
 }
 
+// case labels and bodies of the first switch statement of a function
+func cmdSwitchCases(repo, dir, fn string) {
+	fset, files := parseDir(filepath.Join(repo, dir))
+	for _, f := range files {
+		for _, d := range f.Decls {
+			fd, ok := d.(*ast.FuncDecl)
+			if !ok || fd.Name.Name != fn || fd.Body == nil {
+				continue
+			}
+			type cc struct {
+				Labels []string `json:"labels"`
+				Body   []string `json:"body"`
+			}
+			var out []cc
+			ast.Inspect(fd.Body, func(n ast.Node) bool {
+				sw, ok := n.(*ast.SwitchStmt)
+				if !ok || out != nil {
+					return true
+				}
+				for _, st := range sw.Body.List {
+					cl := st.(*ast.CaseClause)
+					c := cc{}
+					for _, e := range cl.List {
+						c.Labels = append(c.Labels, src(fset, e))
+					}
+					for _, b := range cl.Body {
+						c.Body = append(c.Body, src(fset, b))
+					}
+					out = append(out, c)
+				}
+				return false
+			})
+			json.NewEncoder(os.Stdout).Encode(out)
+			return
+		}
+	}
+	fmt.Fprintln(os.Stderr, "function not found:", fn)
+	os.Exit(1)
+}
+
+// all statements of a function or method (by name), flattened one level
+func cmdFuncStmts(repo, dir, fn string) {
+	fset, files := parseDir(filepath.Join(repo, dir))
+	var out []string
+	for _, f := range files {
+		for _, d := range f.Decls {
+			fd, ok := d.(*ast.FuncDecl)
+			if !ok || fd.Name.Name != fn || fd.Body == nil {
+				continue
+			}
+			for _, s := range fd.Body.List {
+				out = append(out, src(fset, s))
+			}
+		}
+	}
+	json.NewEncoder(os.Stdout).Encode(out)
+}
+
 func main() {
 	if len(os.Args) < 3 {
 		fmt.Fprintln(os.Stderr, "usage: extract <cmd> <repo>")
@@ -155,6 +213,10 @@ func main() {
 	switch os.Args[1] {
 	case "rules":
 		cmdRules(os.Args[2])
+	case "switchcases":
+		cmdSwitchCases(os.Args[2], os.Args[3], os.Args[4])
+	case "funcstmts":
+		cmdFuncStmts(os.Args[2], os.Args[3], os.Args[4])
 	case "bitranges":
 		cmdBitRanges(os.Args[2], os.Args[3], os.Args[4])
 	default:
